@@ -244,6 +244,16 @@ impl<R: DynamicChannelRegion> RegionHandler for DynamicChannelPlan<R> {
                 }
             }
             Frame::Data => {
+                // LinkADRReq, NewChannelReq and CFList can between them leave no channel that is
+                // both defined and enabled. Fall back to the default (join) channels, as the
+                // reference stack does, instead of sampling forever.
+                if !(0..NUM_CHANNELS_DYNAMIC as usize)
+                    .any(|i| self.channel_mask.is_enabled(i).unwrap() && self.channels[i].is_some())
+                {
+                    for i in 0..R::NUM_JOIN_CHANNELS as usize {
+                        self.channel_mask.set_channel(i, true);
+                    }
+                }
                 let mut channel = self.get_random_in_range(rng);
                 loop {
                     if self.channel_mask.is_enabled(channel).unwrap()
